@@ -74,7 +74,7 @@ def shard_lib(idxs, defs):
     out.append('    match idx {')
     for i in idxs:
         if defs[i].utf8 and not defs[i].has_lifetime():
-            out.append('        %d => Some(match std::str::from_utf8(input) { Ok(s) => if mode == "S" { zoo_rt::stack_probe_str::<d%d::T>(s, 4 << 20) } else { zoo_rt::lex_str::<d%d::T>(s, mode) }, Err(_) => "NOTUTF8".into() }),' % (i, i, i))
+            out.append('        %d => Some(match std::str::from_utf8(input) { Ok(s) => if mode == "S" { zoo_rt::stack_probe_str::<d%d::T>(s, 4 << 20) } else if mode == "A" { zoo_rt::stack_probe_str::<d%d::T>(s, 4096) } else { zoo_rt::lex_str::<d%d::T>(s, mode) }, Err(_) => "NOTUTF8".into() }),' % (i, i, i, i))
         elif defs[i].utf8:
             out.append('        %d => Some(match std::str::from_utf8(input) { Ok(s) => zoo_rt::lex_str::<d%d::T>(s, mode), Err(_) => "NOTUTF8".into() }),' % (i, i))
         else:
